@@ -1,5 +1,5 @@
 (* C13 — lemmas about the traversal model (coq/C13/Model.v). *)
-From Coq Require Import NArith List Bool Arith Lia.
+From Coq Require Import ZArith NArith List Bool Arith Lia.
 From FV Require Import C13.Model.
 Import ListNotations.
 
@@ -255,6 +255,166 @@ Proof.
   destruct r; [|cbn; discriminate]. intros R. eapply bal_trans; [apply B; reflexivity | apply IH; assumption].
 Qed.
 
+(* ------------------------------------------------------------------ decycler *)
+Ltac Zify.zify_post_hook ::= Z.div_mod_to_equations.
+
+Definition wf_dec (d : dec) : Prop := length (fst d) = DMAX /\ snd d <= DMAX.
+
+Lemma set_nth_some l : forall i v, i < length l -> exists l', set_nth l i v = Some l' /\ length l' = length l.
+Proof.
+  induction l as [|x l IH]; intros i v H; cbn in *; [lia|].
+  destruct i as [|i]; [exists (v :: l); split; reflexivity|].
+  destruct (IH i v ltac:(lia)) as [l' [E L]]. rewrite E. exists (x :: l'). cbn. split; [reflexivity | lia].
+Qed.
+
+Lemma dec_enter_spec d id : wf_dec d ->
+  match dec_enter d id with
+  | DPanic => False
+  | DErr e => e = ECycle \/ e = EDepth
+  | DOk d' => wf_dec d' /\ snd d' = S (snd d) /\ snd d < DMAX
+  end.
+Proof.
+  destruct d as [ids depth]. unfold wf_dec, dec_enter, DMAX. cbn [fst snd]. intros [L D].
+  destruct (depth <? 64) eqn:Lt; [|right; reflexivity]. apply Nat.ltb_lt in Lt.
+  assert (Hset : match set_nth ids depth id with
+                 | Some ids' => length ids' = 64 /\ S depth <= 64 /\ S depth = S depth /\ depth < 64
+                 | None => False end).
+  { destruct (set_nth_some ids depth id ltac:(lia)) as [l' [E L']]. rewrite E. lia. }
+  destruct (depth =? 0) eqn:Z.
+  - destruct (set_nth ids depth id); [|exact Hset]. cbn. destruct Hset as (?&?&?&?). repeat split; assumption.
+  - destruct (nth_error ids (Nat.div2 depth)) as [x|] eqn:Nx.
+    + destruct (N.eqb x id); cbn; [left; reflexivity|].
+      destruct (set_nth ids depth id); [|exact Hset]. cbn. destruct Hset as (?&?&?&?). repeat split; assumption.
+    + apply nth_error_None in Nx. pose proof (Nat.div2_decr depth 63 ltac:(lia)). lia.
+Qed.
+
+(* a repeated id at the tortoise position is reported as a cycle, never entered *)
+Lemma dec_enter_detects ids depth id :
+  0 < depth -> depth < DMAX -> nth_error ids (Nat.div2 depth) = Some id ->
+  dec_enter (ids, depth) id = DErr ECycle.
+Proof.
+  intros P L H. unfold dec_enter. apply Nat.ltb_lt in L. rewrite L.
+  destruct (depth =? 0) eqn:Z; [apply Nat.eqb_eq in Z; lia|]. rewrite H, N.eqb_refl. reflexivity.
+Qed.
+
+Definition dpres (s s' : st) : Prop := wf_dec (s_dec s') /\ snd (s_dec s') = snd (s_dec s).
+Definition nopanic (r : res) : Prop := r <> RErr EPanic.
+
+Lemma dpres_refl s : wf_dec (s_dec s) -> dpres s s.
+Proof. intros H. split; [exact H | reflexivity]. Qed.
+Lemma dpres_trans a b c : dpres a b -> dpres b c -> dpres a c.
+Proof. intros [W1 D1] [W2 D2]. split; [exact W2 | congruence]. Qed.
+Lemma dpres_same a b s' : s_dec a = s_dec b -> dpres a s' -> dpres b s'.
+Proof. unfold dpres. intros ->. exact (fun x => x). Qed.
+Lemma dpres_same_r a b s : s_dec a = s_dec b -> dpres s a -> dpres s b.
+Proof. unfold dpres. intros ->. exact (fun x => x). Qed.
+
+Lemma dec_emit c s : s_dec (emit c s) = s_dec s.
+Proof. unfold emit. destruct (s_fr s); [reflexivity|]. destruct (coll_cb c f l (s_out s)). reflexivity. Qed.
+Lemma vis_emit c s : s_vis (emit c s) = s_vis s.
+Proof. unfold emit. destruct (s_fr s); [reflexivity|]. destruct (coll_cb c f l (s_out s)). reflexivity. Qed.
+
+Lemma dpres_emit c s : wf_dec (s_dec s) -> dpres s (emit c s).
+Proof. intros H. apply (dpres_same_r s); [symmetry; apply dec_emit | apply dpres_refl, H]. Qed.
+Lemma dpres_if (b : bool) c s : wf_dec (s_dec s) -> dpres s (if b then emit c s else s).
+Proof. destruct b; [apply dpres_emit | apply dpres_refl]. Qed.
+
+Lemma safe_with_guard s id body :
+  wf_dec (s_dec s) ->
+  (forall s0, wf_dec (s_dec s0) -> dpres s0 (snd (body s0)) /\ nopanic (fst (body s0))) ->
+  dpres s (snd (with_guard s id body)) /\ nopanic (fst (with_guard s id body)).
+Proof.
+  intros W H. unfold with_guard. pose proof (dec_enter_spec (s_dec s) id W) as S.
+  destruct (dec_enter (s_dec s) id) as [d'|e|]; cbn; [| |contradiction].
+  - destruct S as [W' [D' _]]. destruct (H (set_dec s d') W') as [[W2 D2] NP].
+    destruct (body (set_dec s d')) as [r s'] eqn:E. cbn in *.
+    destruct (s_dec s') as [ids depth] eqn:Ed. cbn in D2. rewrite D' in D2. subst depth. cbn.
+    split; [|exact NP]. split; cbn; [|reflexivity].
+    destruct W2 as [L B]. cbn in *. split; cbn; [exact L | lia].
+  - split; [apply dpres_refl, W|]. destruct S as [-> | ->]; discriminate.
+Qed.
+
+Lemma safe_layers_loop step :
+  (forall i s, wf_dec (s_dec s) -> dpres s (snd (step i s)) /\ nopanic (fst (step i s))) ->
+  forall n i s, wf_dec (s_dec s) ->
+    dpres s (snd (layers_loop step n i s)) /\ nopanic (fst (layers_loop step n i s)).
+Proof.
+  intros H. induction n as [|n IH]; intros i s W; cbn; [split; [apply dpres_refl, W | discriminate]|].
+  destruct (H i s W) as [D NP]. destruct (step i s) as [r s'] eqn:E. cbn in D, NP.
+  destruct r; [|split; assumption].
+  destruct (IH (N.succ i) s' (proj1 D)) as [D2 NP2]. split; [eapply dpres_trans; eassumption | exact NP2].
+Qed.
+
+(* ------------------------------------------------------------------ visit counting *)
+Lemma vbound_pos B f : 1 <= vbound B f.
+Proof. destruct f; cbn; lia. Qed.
+
+Lemma vis_layers_loop step V :
+  (forall i s, s_vis (snd (step i s)) <= s_vis s + V) ->
+  forall n i s, s_vis (snd (layers_loop step n i s)) <= s_vis s + n * V.
+Proof.
+  intros H. induction n as [|n IH]; intros i s; cbn; [lia|].
+  specialize (H i s). destruct (step i s) as [r s'] eqn:E. cbn in H.
+  destruct r; cbn; [|lia]. specialize (IH (N.succ i) s'). lia.
+Qed.
+
+Lemma vis_with_guard s id body V :
+  (forall s0, s_vis s0 = s_vis s -> s_vis (snd (body s0)) <= s_vis s0 + V) ->
+  s_vis (snd (with_guard s id body)) <= s_vis s + V.
+Proof.
+  intros H. unfold with_guard. destruct (dec_enter (s_dec s) id) as [d'|e|]; cbn; try lia.
+  specialize (H (set_dec s d') eq_refl). destruct (body (set_dec s d')) as [r s'] eqn:E. cbn in H.
+  destruct (dec_drop (s_dec s')); cbn; exact H.
+Qed.
+
+(* ------------------------------------------------------------------ success reaches every child *)
+Lemma loop_ok_all step : forall n st s, fst (layers_loop step n st s) = ROk ->
+  forall i, (st <= i)%N -> (i < st + N.of_nat n)%N -> exists s', fst (step i s') = ROk.
+Proof.
+  induction n as [|n IH]; intros st s H i L U; [lia|].
+  cbn [layers_loop] in H. destruct (step st s) as [r s'] eqn:E. destruct r; [|cbn in H; discriminate].
+  destruct (N.eq_dec i st) as [->|Ne].
+  - exists s. rewrite E. reflexivity.
+  - apply (IH (N.succ st) s' H i); lia.
+Qed.
+
+Lemma with_guard_ok s id body : fst (with_guard s id body) = ROk -> exists s0, fst (body s0) = ROk.
+Proof.
+  unfold with_guard. destruct (dec_enter (s_dec s) id) as [d'|e|]; cbn; try discriminate.
+  destruct (body (set_dec s d')) as [r s'] eqn:E. destruct (dec_drop (s_dec s')); cbn; [|discriminate].
+  intros ->. exists (set_dec s d'). rewrite E. reflexivity.
+Qed.
+
+Definition okclass (r : res) : Prop := r = ROk \/ r = RErr ECycle \/ r = RErr EDepth \/ r = RErr EPanic.
+
+Lemma dec_enter_errs d id e : dec_enter d id = DErr e -> e = ECycle \/ e = EDepth.
+Proof.
+  destruct d as [ids depth]. unfold dec_enter. destruct (depth <? DMAX); [|intros H; inversion H; auto].
+  destruct (depth =? 0).
+  - destruct (set_nth ids depth id); discriminate.
+  - destruct (nth_error ids (Nat.div2 depth)) as [x|]; [|discriminate].
+    destruct (negb (N.eqb x id)); [destruct (set_nth ids depth id); discriminate|]. intros H; inversion H; auto.
+Qed.
+
+Lemma okclass_with_guard s id body :
+  (forall s0, okclass (fst (body s0))) -> okclass (fst (with_guard s id body)).
+Proof.
+  intros H. unfold with_guard. destruct (dec_enter (s_dec s) id) as [d'|e|] eqn:E; cbn.
+  - specialize (H (set_dec s d')). destruct (body (set_dec s d')) as [r s']. cbn in H.
+    destruct (dec_drop (s_dec s')); cbn; [exact H|]. unfold okclass. auto.
+  - apply dec_enter_errs in E. unfold okclass. destruct E as [-> | ->]; auto.
+  - unfold okclass. auto.
+Qed.
+
+Lemma okclass_layers_loop step : forall n st s,
+  (forall i s', (st <= i)%N -> (i < st + N.of_nat n)%N -> okclass (fst (step i s'))) ->
+  okclass (fst (layers_loop step n st s)).
+Proof.
+  induction n as [|n IH]; intros st s H; cbn [layers_loop]; [left; reflexivity|].
+  pose proof (H st s ltac:(lia) ltac:(lia)) as H0. destruct (step st s) as [r s'] eqn:E. cbn in H0.
+  destruct r; [|exact H0]. apply IH. intros i s0 L U. apply H; lia.
+Qed.
+
 Section Trav.
   Variable I : inst.
   Variable oracle : list cb -> N -> answer.
@@ -366,4 +526,398 @@ Section Trav.
         apply (bal_wrap (PushLayer mode) (PopLayer mode)); [exact E3 | exact E5 | reflexivity|].
         apply B2; [exact E4 | reflexivity].
   Qed.
+
+  (* ---- decycler safety: no out-of-range array access, no depth underflow, depth restored on every
+     path (also on errors), depth <= 64; the collector frame is always there to be popped ---- *)
+  Lemma traverse_safe :
+    (forall h g, oracle h g <> AErr EPanic) ->
+    forall fuel p s, wf_dec (s_dec s) ->
+      dpres s (snd (trav fuel p s)) /\ nopanic (fst (trav fuel p s)).
+  Proof.
+    intros HO. induction fuel as [|f IH]; intros p s W.
+    - cbn. split; [apply (dpres_same_r s); [reflexivity | apply dpres_refl, W] | discriminate].
+    - pose proof (traverse_ext f) as IHx. cbn [traverse].
+      assert (Hgen : forall X : res * st, dpres (tick s) (snd X) /\ nopanic (fst X) -> dpres s (snd X) /\ nopanic (fst X)).
+      { intros X [D NP]. split; [|exact NP]. apply (dpres_same (tick s)); [reflexivity | exact D]. }
+      apply Hgen. clear Hgen. assert (W' : wf_dec (s_dec (tick s))) by exact W. clear W. revert W'.
+      generalize (tick s). clear s. intros s W.
+      destruct p as [start num|emit0|gid child|gid|child|src mode backdrop].
+      + apply safe_layers_loop; [|exact W]. intros i s0 W0.
+        destruct (layer I i) as [[ref id]|]; [|split; [apply dpres_refl, W0 | discriminate]].
+        apply safe_with_guard; [exact W0|]. intros s1 W1.
+        destruct (resolve I ref) as [q|]; [apply IH, W1 | split; [apply dpres_refl, W1 | discriminate]].
+      + destruct emit0; cbn; (split; [|discriminate]); [apply dpres_emit, W | apply dpres_refl, W].
+      + destruct (resolve I child) as [q|] eqn:R; [|split; [apply dpres_refl, W | discriminate]].
+        pose proof (IHx q (push_frame s gid)) as X1. destruct (IH q (push_frame s gid) W) as [D1 NP1].
+        destruct (trav f q (push_frame s gid)) as [r1 s2] eqn:E1. cbn [fst snd] in *.
+        destruct (ext_push_pop _ _ _ X1) as [fr [s3 [P _]]]. rewrite P.
+        assert (Ed : s_dec s3 = s_dec s2).
+        { unfold pop_frame in P. destruct (s_fr s2); [discriminate|]. inversion P. reflexivity. }
+        assert (D3 : dpres s s3) by (apply (dpres_same_r s2); [symmetry; exact Ed | exact D1]).
+        destruct (f_ok fr); [split; assumption|].
+        assert (W4 : wf_dec (s_dec (emit (PushClipGlyph gid) s3))) by (rewrite dec_emit; exact (proj1 D3)).
+        destruct (IH q (emit (PushClipGlyph gid) s3) W4) as [D5 NP5].
+        destruct (trav f q (emit (PushClipGlyph gid) s3)) as [r2 s5] eqn:E2. cbn [fst snd] in *.
+        split; [|exact NP5]. eapply dpres_trans; [exact D3|]. eapply dpres_trans; [apply dpres_emit, (proj1 D3)|].
+        eapply dpres_trans; [exact D5 | apply dpres_emit, (proj1 D5)].
+      + destruct (base_glyph I gid) as [| |ref id]; try (split; [apply dpres_refl, W | discriminate]).
+        apply safe_with_guard; [exact W|]. intros s1 W1.
+        assert (A : s_dec (snd (ask_cached oracle s1 gid)) = s_dec s1 /\ fst (ask_cached oracle s1 gid) <> AErr EPanic).
+        { unfold ask_cached. destruct (s_fr s1); cbn; [split; [apply dec_emit | apply HO] | split; [reflexivity | discriminate]]. }
+        destruct (ask_cached oracle s1 gid) as [a s2]. cbn [fst snd] in A. destruct A as [Ad Aa].
+        assert (D2 : dpres s1 s2) by (apply (dpres_same_r s1); [symmetry; exact Ad | apply dpres_refl, W1]).
+        destruct a as [| |e]; [split; [exact D2 | discriminate] | | split; [exact D2 | intros C; inversion C; subst; apply Aa; reflexivity]].
+        assert (Db : dpres s2 (if clip_box I gid then emit PushClipBox s2 else s2)) by (apply dpres_if, (proj1 D2)).
+        destruct (resolve I ref) as [q|]; [|split; [eapply dpres_trans; eassumption | discriminate]].
+        destruct (IH q _ (proj1 Db)) as [D3 NP3].
+        destruct (trav f q (if clip_box I gid then emit PushClipBox s2 else s2)) as [r1 s3] eqn:E1. cbn [fst snd] in *.
+        split; [|exact NP3]. eapply dpres_trans; [exact D2|]. eapply dpres_trans; [exact Db|].
+        eapply dpres_trans; [exact D3 | apply dpres_if, (proj1 D3)].
+      + assert (D1 : dpres s (emit PushT s)) by (apply dpres_emit, W).
+        destruct (resolve I child) as [q|]; [|split; [exact D1 | discriminate]].
+        destruct (IH q _ (proj1 D1)) as [D3 NP3]. destruct (trav f q (emit PushT s)) as [r1 s3] eqn:E1. cbn [fst snd] in *.
+        split; [|exact NP3]. eapply dpres_trans; [exact D1|]. eapply dpres_trans; [exact D3 | apply dpres_emit, (proj1 D3)].
+      + assert (D1 : dpres s (emit (PushLayer 3) s)) by (apply dpres_emit, W).
+        destruct (resolve I backdrop) as [qb|]; [|split; [exact D1 | discriminate]].
+        destruct (IH qb _ (proj1 D1)) as [D3 NP3]. destruct (trav f qb (emit (PushLayer 3) s)) as [r1 s3] eqn:E1. cbn [fst snd] in *.
+        assert (D13 : dpres s s3) by (eapply dpres_trans; eassumption).
+        destruct r1; [|split; assumption].
+        assert (D4 : dpres s3 (emit (PushLayer mode) s3)) by (apply dpres_emit, (proj1 D3)).
+        destruct (resolve I src) as [qs|]; [|split; [eapply dpres_trans; eassumption | discriminate]].
+        destruct (IH qs _ (proj1 D4)) as [D5 NP5]. destruct (trav f qs (emit (PushLayer mode) s3)) as [r2 s5] eqn:E2. cbn [fst snd] in *.
+        split; [|exact NP5]. eapply dpres_trans; [exact D13|]. eapply dpres_trans; [exact D4|]. eapply dpres_trans; [exact D5|].
+        eapply dpres_trans; [apply dpres_emit, (proj1 D5) | apply dpres_emit]. rewrite dec_emit. exact (proj1 D5).
+  Qed.
+
+  (* ---- explicit bound on the number of visited nodes ---- *)
+  Lemma traverse_vis B :
+    2 <= B -> (forall r st n, resolve I r = Some (RLayers st n) -> n <= B) ->
+    forall fuel p s, layers_le B p -> s_vis (snd (trav fuel p s)) <= s_vis s + vbound B fuel.
+  Proof.
+    intros HB HL. induction fuel as [|f IH]; intros p s Lp.
+    - cbn. lia.
+    - assert (IH' : forall r q s, resolve I r = Some q -> s_vis (snd (trav f q s)) <= s_vis s + vbound B f).
+      { intros r q s0 R. apply IH. destruct q; cbn; try exact Logic.I. eapply HL, R. }
+      cbn [traverse vbound]. assert (Hgen : forall X : st, s_vis X <= s_vis (tick s) + B * vbound B f -> s_vis X <= s_vis s + (1 + B * vbound B f)).
+      { cbn. lia. }
+      apply Hgen. clear Hgen. generalize (tick s). clear s. intros s.
+      pose proof (vbound_pos B f) as Vp. set (V := vbound B f) in *.
+      assert (M1 : V <= B * V) by nia. assert (M2 : 2 * V <= B * V) by nia.
+      destruct p as [start num|emit0|gid child|gid|child|src mode backdrop].
+      + cbn in Lp. assert (Mn : num * V <= B * V) by (apply Nat.mul_le_mono_r; exact Lp).
+        eapply Nat.le_trans; [apply (vis_layers_loop _ V)|lia].
+        intros i s0. destruct (layer I i) as [[ref id]|]; [|cbn; lia].
+        apply vis_with_guard. intros s1 _. destruct (resolve I ref) as [q|] eqn:R; [eapply IH', R | cbn; lia].
+      + destruct emit0; cbn; [rewrite vis_emit|]; lia.
+      + destruct (resolve I child) as [q|] eqn:R; [|cbn; lia].
+        pose proof (IH' _ q (push_frame s gid) R) as V1. change (s_vis (push_frame s gid)) with (s_vis s) in V1.
+        destruct (trav f q (push_frame s gid)) as [r1 s2] eqn:E1. cbn [fst snd] in *.
+        unfold pop_frame. destruct (s_fr s2) as [|fr rest]; [cbn; lia|].
+        destruct (f_ok fr); [cbn; lia|].
+        set (s3 := mkS rest (s_out s2) (s_dec s2) (s_vis s2)).
+        pose proof (IH' _ q (emit (PushClipGlyph gid) s3) R) as V2. rewrite vis_emit in V2.
+        destruct (trav f q (emit (PushClipGlyph gid) s3)) as [r2 s5] eqn:E2. cbn [fst snd] in *.
+        rewrite vis_emit. subst s3. cbn in V2. lia.
+      + destruct (base_glyph I gid) as [| |ref id]; try (cbn; lia).
+        eapply Nat.le_trans; [apply (vis_with_guard _ _ _ V)|lia]. intros s1 _.
+        assert (A : s_vis (snd (ask_cached oracle s1 gid)) = s_vis s1).
+        { unfold ask_cached. destruct (s_fr s1); cbn; [apply vis_emit | reflexivity]. }
+        destruct (ask_cached oracle s1 gid) as [a s2]. cbn [fst snd] in A.
+        destruct a; try (cbn; lia).
+        assert (Vb : s_vis (if clip_box I gid then emit PushClipBox s2 else s2) = s_vis s2)
+          by (destruct (clip_box I gid); [apply vis_emit | reflexivity]).
+        destruct (resolve I ref) as [q|] eqn:R; [|cbn; lia].
+        pose proof (IH' _ q (if clip_box I gid then emit PushClipBox s2 else s2) R) as V1.
+        destruct (trav f q (if clip_box I gid then emit PushClipBox s2 else s2)) as [r1 s3] eqn:E1. cbn [fst snd] in *.
+        destruct (clip_box I gid); [rewrite vis_emit|]; lia.
+      + destruct (resolve I child) as [q|] eqn:R; [|cbn; rewrite vis_emit; lia].
+        pose proof (IH' _ q (emit PushT s) R) as V1. rewrite vis_emit in V1.
+        destruct (trav f q (emit PushT s)) as [r1 s3] eqn:E1. cbn [fst snd] in *. rewrite vis_emit. lia.
+      + destruct (resolve I backdrop) as [qb|] eqn:Rb; [|cbn; rewrite vis_emit; lia].
+        pose proof (IH' _ qb (emit (PushLayer 3) s) Rb) as V1. rewrite vis_emit in V1.
+        destruct (trav f qb (emit (PushLayer 3) s)) as [r1 s3] eqn:E1. cbn [fst snd] in *.
+        destruct r1; [|cbn; lia].
+        destruct (resolve I src) as [qs|] eqn:Rs; [|cbn; rewrite vis_emit; lia].
+        pose proof (IH' _ qs (emit (PushLayer mode) s3) Rs) as V2. rewrite vis_emit in V2.
+        destruct (trav f qs (emit (PushLayer mode) s3)) as [r2 s5] eqn:E2. cbn [fst snd] in *.
+        rewrite !vis_emit. lia.
+  Qed.
+
+  (* ---- a successful traversal has walked every path below the paint to its end, within the depth
+     budget (client not drawing from its cache): no path of [fuel] edges exists ---- *)
+  Lemma traverse_ok_shallow :
+    (forall h g, oracle h g <> AOk) ->
+    forall fuel p s, fst (trav fuel p s) = ROk -> ~ deep I fuel p.
+  Proof.
+    intros HO. induction fuel as [|f IH]; intros p s H Dp; [cbn in H; discriminate|].
+    inversion Dp as [|n p0 q Eg Dq]; subst. cbn [traverse] in H. revert H. generalize (tick s). clear s. intros s H.
+    inversion Eg; subst.
+    - destruct (loop_ok_all _ _ _ _ H i ltac:(assumption) ltac:(assumption)) as [s' Hs].
+      rewrite H2 in Hs. apply with_guard_ok in Hs. destruct Hs as [s0 Hs]. rewrite H3 in Hs.
+      exact (IH q s0 Hs Dq).
+    - rewrite H0 in H. destruct (trav f q (push_frame s g)) as [r1 s2] eqn:E1.
+      destruct (pop_frame s2) as [[fr s3]|]; [|cbn in H; discriminate].
+      destruct (f_ok fr).
+      + cbn in H. subst. apply (IH q (push_frame s g)); [rewrite E1; reflexivity | exact Dq].
+      + destruct (trav f q (emit (PushClipGlyph g) s3)) as [r2 s5] eqn:E2. cbn in H. subst.
+        apply (IH q (emit (PushClipGlyph g) s3)); [rewrite E2; reflexivity | exact Dq].
+    - rewrite H0 in H. apply with_guard_ok in H. destruct H as [s0 Hs].
+      assert (A : fst (ask_cached oracle s0 g) <> AOk).
+      { unfold ask_cached. destruct (s_fr s0); cbn; [apply HO | discriminate]. }
+      destruct (ask_cached oracle s0 g) as [a s2]. cbn [fst] in A.
+      destruct a; [contradiction | | cbn in Hs; discriminate].
+      rewrite H1 in Hs. destruct (trav f q (if clip_box I g then emit PushClipBox s2 else s2)) as [r1 s3] eqn:E1.
+      cbn in Hs. subst. eapply (IH q); [rewrite E1; reflexivity | exact Dq].
+    - rewrite H0 in H. destruct (trav f q (emit PushT s)) as [r1 s3] eqn:E1. cbn in H. subst.
+      eapply (IH q); [rewrite E1; reflexivity | exact Dq].
+    - destruct (resolve I b) as [qb|]; [|cbn in H; discriminate].
+      destruct (trav f qb (emit (PushLayer 3) s)) as [r1 s3] eqn:E1. destruct r1; [|cbn in H; discriminate].
+      rewrite H0 in H. destruct (trav f q (emit (PushLayer m) s3)) as [r2 s5] eqn:E2. cbn in H. subst.
+      eapply (IH q); [rewrite E2; reflexivity | exact Dq].
+    - rewrite H0 in H. destruct (trav f q (emit (PushLayer 3) s)) as [r1 s3] eqn:E1.
+      destruct r1; [|cbn in H; discriminate].
+      eapply (IH q); [rewrite E1; reflexivity | exact Dq].
+  Qed.
+
+  (* ---- when every reference resolves and the client reports no error, the only errors are the
+     cycle / depth reports (or a model panic, excluded by traverse_safe) ---- *)
+  Lemma traverse_closed_okclass :
+    (forall h g e, oracle h g <> AErr e) ->
+    forall fuel p s, closed I fuel p -> okclass (fst (trav fuel p s)).
+  Proof.
+    intros HO. induction fuel as [|f IH]; intros p s C; [cbn; right; right; left; reflexivity|].
+    cbn [traverse]. generalize (tick s). clear s. intros s.
+    destruct p as [start num|emit0|gid child|gid|child|src mode backdrop]; cbn [closed] in C.
+    - apply okclass_layers_loop. intros i s' L U. destruct (C i L U) as [ref [id [q [El [Er Cq]]]]].
+      rewrite El. apply okclass_with_guard. intros s0. rewrite Er. apply IH, Cq.
+    - destruct emit0; left; reflexivity.
+    - destruct C as [q [Er Cq]]. rewrite Er.
+      pose proof (IH q (push_frame s gid) Cq) as O1. destruct (trav f q (push_frame s gid)) as [r1 s2].
+      destruct (pop_frame s2) as [[fr s3]|]; [|right; right; right; reflexivity].
+      destruct (f_ok fr); [exact O1|].
+      pose proof (IH q (emit (PushClipGlyph gid) s3) Cq) as O2.
+      destruct (trav f q (emit (PushClipGlyph gid) s3)) as [r2 s5]. exact O2.
+    - destruct C as [ref [id [q [Eb [Er Cq]]]]]. rewrite Eb. apply okclass_with_guard. intros s0.
+      assert (A : forall e, fst (ask_cached oracle s0 gid) <> AErr e).
+      { intros e. unfold ask_cached. destruct (s_fr s0); cbn; [apply HO | discriminate]. }
+      destruct (ask_cached oracle s0 gid) as [a s2]. cbn [fst] in A.
+      destruct a as [| |e]; [left; reflexivity | | exfalso; exact (A e eq_refl)].
+      rewrite Er. pose proof (IH q (if clip_box I gid then emit PushClipBox s2 else s2) Cq) as O1.
+      destruct (trav f q (if clip_box I gid then emit PushClipBox s2 else s2)) as [r1 s3]. exact O1.
+    - destruct C as [q [Er Cq]]. rewrite Er. pose proof (IH q (emit PushT s) Cq) as O1.
+      destruct (trav f q (emit PushT s)) as [r1 s3]. exact O1.
+    - destruct C as [[qs [Es Cs]] [qb [Eb Cb]]]. rewrite Eb.
+      pose proof (IH qb (emit (PushLayer 3) s) Cb) as O1. destruct (trav f qb (emit (PushLayer 3) s)) as [r1 s3].
+      destruct r1; [|exact O1]. rewrite Es.
+      pose proof (IH qs (emit (PushLayer mode) s3) Cs) as O2. destruct (trav f qs (emit (PushLayer mode) s3)) as [r2 s5].
+      exact O2.
+  Qed.
 End Trav.
+
+(* ------------------------------------------------------------------ ColorGlyph::paint *)
+Section Paint.
+  Variable I : inst.
+  Variable oracle : list cb -> N -> answer.
+
+  Lemma init_real : s_fr init_st = [].
+  Proof. reflexivity. Qed.
+  Lemma wf_dec0 : wf_dec dec0.
+  Proof. split; cbn; [reflexivity | unfold DMAX; lia]. Qed.
+
+  Definition root_body (ref : N) : st -> res * st :=
+    fun s => match resolve I ref with None => (RErr EParse, s) | Some q => traverse I oracle 64 q s end.
+
+  Lemma paint_v1 gid ref id : base_glyph I gid = BSome ref id ->
+    paint I oracle gid =
+      let s0 := if clip_box I gid then emit PushClipBox init_st else init_st in
+      match with_guard s0 id (root_body ref) with
+      | (ROk, s) => Painted ROk (if clip_box I gid then emit PopClip s else s)
+      | (RErr e, s) => Painted (RErr e) s
+      end.
+  Proof.
+    intros E. unfold paint. rewrite E. cbv zeta. fold (root_body ref).
+    destruct (with_guard _ id (root_body ref)) as [r s]. destruct r; reflexivity.
+  Qed.
+
+  Lemma v0_loop_bal : forall n i s, s_fr s = [] ->
+    s_fr (snd (v0_loop I n i s)) = [] /\ bal s (snd (v0_loop I n i s)) /\ s_vis (snd (v0_loop I n i s)) = s_vis s.
+  Proof.
+    induction n as [|n IH]; intros i s E; cbn; [split; [exact E | split; [apply bal_refl | reflexivity]]|].
+    destruct (v0_layer I i) as [[g pal]|]; [|cbn; split; [exact E | split; [apply bal_refl | reflexivity]]].
+    destruct (IH (N.succ i) (emit (FillGlyph g false 0) s) (emit_real_fr _ _ E)) as [F [B V]].
+    split; [exact F|]. split; [|rewrite V; apply vis_emit].
+    eapply bal_trans; [|exact B]. apply bal_emit_neutral; [exact E | exact Logic.I].
+  Qed.
+
+  (* balanced_on_ok *)
+  Lemma paint_balanced gid s : paint I oracle gid = Painted ROk s -> well_nested (s_out s).
+  Proof.
+    assert (Fin : forall s', bal init_st s' -> well_nested (s_out s')).
+    { intros s' [w [O Nw]]. cbn in O. rewrite O. apply well_nested_neutral, Nw. }
+    destruct (base_glyph I gid) as [| |ref id] eqn:Eb.
+    3: {
+      rewrite (paint_v1 _ _ _ Eb). cbv zeta.
+      set (s0 := if clip_box I gid then emit PushClipBox init_st else init_st).
+      assert (E0 : s_fr s0 = []) by (subst s0; destruct (clip_box I gid); [apply emit_real_fr|]; reflexivity).
+      assert (X : ext s0 (snd (with_guard s0 id (root_body ref)))).
+      { apply ext_with_guard. intros s1 _ _. unfold root_body. destruct (resolve I ref); [apply traverse_ext | apply ext_refl]. }
+      assert (B : fst (with_guard s0 id (root_body ref)) = ROk -> bal s0 (snd (with_guard s0 id (root_body ref)))).
+      { apply bal_with_guard. intros s1 F1 _. unfold root_body. destruct (resolve I ref); [|cbn; discriminate].
+        apply traverse_bal. congruence. }
+      destruct (with_guard s0 id (root_body ref)) as [r s1]. cbn [fst snd] in *.
+      destruct r; intros H; inversion H; subst. apply Fin.
+      apply (bal_wrap_if (clip_box I gid) PushClipBox PopClip);
+        [reflexivity | eapply ext_real; eassumption | exact Logic.I | apply B; reflexivity]. }
+    all: unfold paint; rewrite Eb; destruct (v0_base I gid) as [[start num]|]; [|discriminate];
+      destruct (v0_loop_bal num start init_st eq_refl) as [_ [B _]];
+      destruct (v0_loop I num start init_st) as [r s']; intros H; inversion H; subst; apply Fin, B.
+  Qed.
+
+  Lemma paint_balanced_default_fill_glyph gid s :
+    paint I oracle gid = Painted ROk s -> well_nested (expand (s_out s)).
+  Proof. intros H. unfold well_nested. rewrite expand_run. exact (paint_balanced gid s H). Qed.
+
+  (* decycler_safe *)
+  Lemma paint_safe gid r s :
+    (forall h g, oracle h g <> AErr EPanic) ->
+    paint I oracle gid = Painted r s ->
+    r <> RErr EPanic /\ length (fst (s_dec s)) = DMAX /\ snd (s_dec s) = 0.
+  Proof.
+    intros HO. destruct (base_glyph I gid) as [| |ref id] eqn:Eb.
+    3: {
+      rewrite (paint_v1 _ _ _ Eb). cbv zeta.
+      set (s0 := if clip_box I gid then emit PushClipBox init_st else init_st).
+      assert (W0 : wf_dec (s_dec s0) /\ snd (s_dec s0) = 0).
+      { subst s0. destruct (clip_box I gid); [rewrite dec_emit|]; split; (apply wf_dec0 || reflexivity). }
+      destruct (safe_with_guard s0 id (root_body ref) (proj1 W0)) as [[W D] NP].
+      { intros s1 W1. unfold root_body. destruct (resolve I ref); [apply (traverse_safe I oracle HO), W1|].
+        split; [apply dpres_refl, W1 | discriminate]. }
+      destruct (with_guard s0 id (root_body ref)) as [r1 s1]. cbn [fst snd] in *.
+      destruct r1; intros H; inversion H; subst.
+      - split; [discriminate|]. destruct (clip_box I gid); [rewrite dec_emit|]; (split; [apply W | rewrite D; apply W0]).
+      - split; [exact NP|]. split; [apply W | rewrite D; apply W0]. }
+    all: unfold paint; rewrite Eb; destruct (v0_base I gid) as [[start num]|]; [|discriminate];
+      intros H;
+      assert (X : forall n i s0, s_dec (snd (v0_loop I n i s0)) = s_dec s0 /\ nopanic (fst (v0_loop I n i s0)))
+        by (induction n as [|n IHn]; intros i s0; cbn; [split; [reflexivity | discriminate]|];
+            destruct (v0_layer I i) as [[g pal]|]; [|split; [reflexivity | discriminate]];
+            destruct (IHn (N.succ i) (emit (FillGlyph g false 0) s0)) as [Dd Np]; split; [rewrite Dd; apply dec_emit | exact Np]);
+      destruct (X num start init_st) as [Dd Np]; destruct (v0_loop I num start init_st) as [r' s'];
+      inversion H; subst; cbn [fst snd] in *; split; [exact Np | rewrite Dd; split; reflexivity].
+  Qed.
+
+  (* visit_bound *)
+  Local Opaque vbound.
+  Lemma paint_visits B gid r s :
+    2 <= B -> (forall ref st n, resolve I ref = Some (RLayers st n) -> n <= B) ->
+    paint I oracle gid = Painted r s -> s_vis s <= vbound B 64.
+  Proof.
+    intros HB HL. destruct (base_glyph I gid) as [| |ref id] eqn:Eb.
+    3: {
+      rewrite (paint_v1 _ _ _ Eb). cbv zeta.
+      set (s0 := if clip_box I gid then emit PushClipBox init_st else init_st).
+      assert (V0 : s_vis s0 = 0) by (subst s0; destruct (clip_box I gid); [rewrite vis_emit|]; reflexivity).
+      assert (V : s_vis (snd (with_guard s0 id (root_body ref))) <= s_vis s0 + vbound B 64).
+      { apply vis_with_guard. intros s1 _. unfold root_body. destruct (resolve I ref) as [q|] eqn:R; [|cbn; lia].
+        apply (traverse_vis I oracle B HB HL). destruct q; cbn; try exact Logic.I. eapply HL, R. }
+      destruct (with_guard s0 id (root_body ref)) as [r1 s1]. cbn [fst snd] in *.
+      destruct r1; intros H; inversion H; subst; [destruct (clip_box I gid); [rewrite vis_emit|]|]; lia. }
+    all: unfold paint; rewrite Eb; destruct (v0_base I gid) as [[start num]|]; [|discriminate];
+      destruct (v0_loop_bal num start init_st eq_refl) as [_ [_ V]];
+      destruct (v0_loop I num start init_st) as [r' s']; intros H; inversion H; subst; cbn [snd] in V; rewrite V; cbn;
+      pose proof (vbound_pos B 64); lia.
+  Qed.
+  Local Transparent vbound.
+
+  (* cycle_is_error *)
+  Lemma paint_deep_not_ok gid ref id q r s :
+    (forall h g, oracle h g <> AOk) ->
+    base_glyph I gid = BSome ref id -> resolve I ref = Some q -> deep I 64 q ->
+    paint I oracle gid = Painted r s -> r <> ROk.
+  Proof.
+    intros HO Eb Er Dq. rewrite (paint_v1 _ _ _ Eb). cbv zeta.
+    set (s0 := if clip_box I gid then emit PushClipBox init_st else init_st).
+    pose proof (with_guard_ok s0 id (root_body ref)) as G.
+    destruct (with_guard s0 id (root_body ref)) as [r1 s1]. cbn [fst] in G.
+    destruct r1; intros H; inversion H; subst; [|discriminate].
+    destruct (G eq_refl) as [s2 Hs]. unfold root_body in Hs. rewrite Er in Hs.
+    exfalso. exact (traverse_ok_shallow I oracle HO 64 q s2 Hs Dq).
+  Qed.
+
+  Lemma paint_cycle_error_kind gid ref id q r s :
+    (forall h g, oracle h g = AUnimpl) ->
+    base_glyph I gid = BSome ref id -> resolve I ref = Some q -> deep I 64 q -> closed I 64 q ->
+    paint I oracle gid = Painted r s -> r = RErr ECycle \/ r = RErr EDepth.
+  Proof.
+    intros HO Eb Er Dq Cq Hp.
+    assert (H1 : r <> ROk).
+    { eapply paint_deep_not_ok; try eassumption. intros h g. rewrite HO. discriminate. }
+    assert (H2 : r <> RErr EPanic).
+    { eapply paint_safe; [|exact Hp]. intros h g. rewrite HO. discriminate. }
+    revert Hp. rewrite (paint_v1 _ _ _ Eb). cbv zeta.
+    set (s0 := if clip_box I gid then emit PushClipBox init_st else init_st).
+    assert (O : okclass (fst (with_guard s0 id (root_body ref)))).
+    { apply okclass_with_guard. intros s1. unfold root_body. rewrite Er.
+      apply traverse_closed_okclass; [|exact Cq]. intros h g e. rewrite HO. discriminate. }
+    destruct (with_guard s0 id (root_body ref)) as [r1 s1]. cbn [fst] in O.
+    destruct r1; intros H; inversion H; subst; [contradiction|].
+    destruct O as [O|[O|[O|O]]]; [discriminate | left; exact O | right; exact O | contradiction].
+  Qed.
+End Paint.
+
+(* ------------------------------------------------------------------ statements in Props.v form *)
+Lemma traverse_total I oracle fuel p s : exists r s', traverse I oracle fuel p s = (r, s').
+Proof. destruct (traverse I oracle fuel p s) as [r s']. exists r, s'. reflexivity. Qed.
+
+Lemma paint_total I oracle gid : paint I oracle gid = NoGlyph \/ exists r s, paint I oracle gid = Painted r s.
+Proof. destruct (paint I oracle gid) as [|r s]; [left; reflexivity | right; exists r, s; reflexivity]. Qed.
+
+Lemma traverse_balanced_wn I oracle fuel p s :
+  s_fr s = [] -> fst (traverse I oracle fuel p s) = ROk ->
+  s_fr (snd (traverse I oracle fuel p s)) = [] /\
+  exists w, s_out (snd (traverse I oracle fuel p s)) = s_out s ++ w /\ well_nested w.
+Proof.
+  intros E H. split; [eapply ext_real; [apply traverse_ext | exact E]|].
+  destruct (traverse_bal I oracle fuel p s E H) as [w [O Nw]]. exists w. split; [exact O | apply well_nested_neutral, Nw].
+Qed.
+
+Lemma collector_forwards I oracle fuel p s :
+  s_fr s <> [] ->
+  length (s_fr (snd (traverse I oracle fuel p s))) = length (s_fr s) /\
+  exists w, s_out (snd (traverse I oracle fuel p s)) = s_out s ++ w /\
+            Forall (fun c => exists g x k, c = FillGlyph g x k) w /\ well_nested w.
+Proof.
+  intros E. destruct (traverse_ext I oracle fuel p s) as [L [w [O F]]]. split; [exact L|].
+  exists w. split; [exact O|]. specialize (F E). split.
+  - eapply Forall_impl; [|exact F]. intros c Hc. destruct c; try contradiction. eauto.
+  - apply well_nested_neutral, fgonly_neutral, F.
+Qed.
+
+Lemma decycler_enter_safe ids depth id :
+  length ids = 64 -> depth <= 64 ->
+  match dec_enter (ids, depth) id with
+  | DPanic => False
+  | DErr e => e = ECycle \/ e = EDepth
+  | DOk (ids', depth') => length ids' = 64 /\ depth' = S depth /\ depth' <= 64
+  end.
+Proof.
+  intros L D. pose proof (dec_enter_spec (ids, depth) id (conj L D)) as H.
+  destruct (dec_enter (ids, depth) id) as [[ids' depth']|e|]; [|exact H|exact H].
+  destruct H as [[L' D'] [S' Lt]]. cbn in *. unfold DMAX in *. repeat split; assumption.
+Qed.
+
+Lemma traverse_decycler_safe I oracle fuel p s :
+  (forall h g, oracle h g <> AErr EPanic) ->
+  length (fst (s_dec s)) = 64 -> snd (s_dec s) <= 64 ->
+  fst (traverse I oracle fuel p s) <> RErr EPanic /\
+  length (fst (s_dec (snd (traverse I oracle fuel p s)))) = 64 /\
+  snd (s_dec (snd (traverse I oracle fuel p s))) = snd (s_dec s).
+Proof.
+  intros HO L D. destruct (traverse_safe I oracle HO fuel p s (conj L D)) as [[[L' _] D'] NP].
+  split; [exact NP | split; [exact L' | exact D']].
+Qed.
+
+Lemma visit_bound_255 I oracle gid r s :
+  (forall ref st n, resolve I ref = Some (RLayers st n) -> n <= 255) ->
+  paint I oracle gid = Painted r s -> s_vis s <= vbound 255 64.
+Proof. intros H. apply paint_visits; [lia | exact H]. Qed.
